@@ -28,7 +28,7 @@ ASSUMPTIONS = ['inputs the real parser rejects are skipped; the reference re-rea
                'line continuations inside string literals are stripped by design; stand-alone empty statements in '
                'statement lists may be removed by semicolon dropping']
 BUDGET_S = {'quick': 70, 'thorough': 900}
-REQUIRED_HITS = ['minify_print', 'reparse', 'reference_reread', 'space_minimum_decision', 'semicolon_dropped']
+REQUIRED_HITS = ['identifier_boundary', 'minify_print', 'reparse', 'reference_reread', 'space_minimum_decision', 'semicolon_dropped']
 FLOOR = {'quick': 3000, 'thorough': 60000}
 
 
@@ -230,6 +230,12 @@ def run(ctx):
                 ctx.note('product workload truncated by time in shard %d' % ctx.shard)
                 break
 
+        # identifier characters of every class the grammar names, at both edges of a name, against the
+        # keyword operators and the tokens that fuse with words
+        for text in boundary_texts(ctx):
+            check(ctx, text, 'identifier_boundary')
+            ctx.hit('identifier_boundary')
+
         def opts_fn(i, r):
             return jsgen.Opts(clean=(i % 2 == 0), unicode_idents=(i % 3 == 0), string_continuations=(i % 3 == 1))
         progs = work.Programs(ctx, ctx.pick(300, 8000), opts_fn=opts_fn)
@@ -240,6 +246,72 @@ def run(ctx):
         progs.report()
     finally:
         sd.remove()
+
+
+def boundary_chars():
+    """(start characters, part-only characters): up to 10 per Unicode category of 7.6, evenly spread over
+    the BMP, plus the ASCII specials and ZWNJ / ZWJ"""
+    import unicodedata
+    by_cat = {}
+    for cp in range(0x80, 0x10000):
+        if 0xd800 <= cp < 0xe000:
+            continue
+        c = chr(cp)
+        by_cat.setdefault(unicodedata.category(c), []).append(c)
+
+    def spread(cat, n=10):
+        xs = by_cat.get(cat, [])
+        if len(xs) <= n:
+            return xs
+        return [xs[(i * (len(xs) - 1)) // (n - 1)] for i in range(n)]
+    start = ['$', '_', 'Z'] + [c for cat in ('Lu', 'Ll', 'Lt', 'Lm', 'Lo', 'Nl') for c in spread(cat)]
+    part = ['9', '\u200c', '\u200d'] + [c for cat in ('Mn', 'Mc', 'Nd', 'Pc') for c in spread(cat)]
+    return start, part
+
+
+def boundary_texts(ctx):
+    from calmjs.parse.lexers.es5 import Lexer
+    from calmjs.parse.exceptions import ECMASyntaxError
+
+    def one_identifier(name):
+        # the sample is restricted to names the repository's own tables (an older Unicode version than
+        # Python's) take for one identifier; others are counted, not judged
+        try:
+            lx = Lexer()
+            lx.input(name)
+            toks = list(lx)
+        except ECMASyntaxError:
+            return False
+        return len(toks) == 1 and toks[0].type == 'ID' and toks[0].value == name
+    start, part = boundary_chars()
+    names = []
+    for c in start:
+        names += [c, c + 'b', 'a' + c]
+    for c in part:
+        names += ['a' + c, 'a' + c + 'b']
+    names += ['\\u0061', 'a\\u0062', '\\u00e9x']
+    k = 0
+    for i, name in enumerate(names):
+        if i % ctx.nshards != ctx.shard:
+            continue
+        if not one_identifier(name) or not refjs_accepts(name):
+            ctx.count('boundary_name_outside_common_tables')
+            continue
+        k += 1
+        for tpl in ('%s in b', 'a in %s', '%s instanceof %s', 'typeof %s', 'void %s;', 'new %s', 'delete %s.x',
+                    'x = %s in %s ? %s : 1', 'function f() { return %s }', 'for (var %s in %s) ;', '%s + +%s',
+                    '%s - -%s', '%s / /r/', '1 .x + %s', 'if (a) %s; else %s', 'do %s; while (%s)',
+                    'a = {get %s() {}, set %s(v) {}}', 'throw %s'):
+            yield tpl.replace('%s', name)
+    ctx.extra['boundary_names_judged'] = k
+
+
+def refjs_accepts(name):
+    try:
+        r = refjs.parse(name)
+    except refjs.RefSyntaxError:
+        return False
+    return len(r.tokens) == 1
 
 
 def replay(ctx, witness):
